@@ -181,7 +181,9 @@ func (f rsFrame) rect(b rsBox) *model3d.Rect {
 func rectSetSection(r *vlib.Run, nCases int) {
 	const T = "rectset."
 	const key = "toolbox3d.RectSet.Solid/contains-equals-box-set-model"
-	r.Section("rectset", nCases, vlib.SectionOpts{}, func(c *vlib.Case) {
+	r.Section("rectset", nCases, vlib.SectionOpts{}, func(c0 *vlib.Case) {
+		c := newCase(c0)
+		defer c.flush()
 		rng := c.Rng
 		var f rsFrame
 		for a := 0; a < 3; a++ {
